@@ -37,6 +37,14 @@ def _module_state(ctx: Ctx, mb) -> dict:
     return out
 
 
+def _unwrap(node, e, en):
+    """inspect.unwrap: follow the `__wrapped__` chain (functools.wraps)."""
+    v = e.ev(node.args[0], en)
+    while isinstance(v, Tok) and "__wrapped__" in v.attrs:
+        v = v.attrs["__wrapped__"]
+    return v
+
+
 def run(ctx: Ctx, mb) -> bool:
     """Returns False when the function is not in the evaluable shape (caller falls back to its shape rules)."""
     fn = mb.node
@@ -68,7 +76,7 @@ def run(ctx: Ctx, mb) -> bool:
             ev = PyEval(ctx.idx, mb.module.name)
             mstate = _module_state(ctx, mb)
             ev.__dict__["_modconst"] = mstate  # helpers called from mock_builtins see the same module-level objects
-            env = {fparam: f, **mstate, "id": lambda node, e, en: id(e.ev(node.args[0], en))}
+            env = {fparam: f, **mstate, "id": lambda node, e, en: id(e.ev(node.args[0], en)), "inspect.unwrap": _unwrap, "unwrap": _unwrap}
             try:
                 r = ev.run(pre, env)
                 if r[0] != "fall":
@@ -92,6 +100,36 @@ def run(ctx: Ctx, mb) -> bool:
                             "changed": sorted(k for k in init if k in g and g[k] != init[k])})
     # two traces in a row on the SAME module namespace, the user's bindings changing in between: module-level state of the
     # mock module (memo tables) is shared between the two runs, `id(x)` is a stable key per object
+    # decorated comptime function: `f` is a functools.wraps wrapper living in another module than the function it wraps; whatever
+    # namespace the mocks are put into, BOTH namespaces must be exactly what they were once tracing is over
+    for wb, ib in itertools.product(({}, {"int": "user_int_w"}), ({}, {"int": "user_int_i"}, {"len": "user_len_i"})):
+        for exit_kind, post in (("normal", post_normal), ("exception", post_exc)):
+            n += 1
+            gw, gi = {"other": "w_other", **wb}, {"other": "i_other", **ib}
+            want_w, want_i = dict(gw), dict(gi)
+            inner = Tok("inner", __globals__=gi, __ident__=3)
+            f = Tok("f", __globals__=gw, __wrapped__=inner, __ident__=2)
+            ev = PyEval(ctx.idx, mb.module.name)
+            mstate = _module_state(ctx, mb)
+            ev.__dict__["_modconst"] = mstate
+            env = {fparam: f, **mstate, "id": lambda node, e, en: id(e.ev(node.args[0], en)), "inspect.unwrap": _unwrap, "unwrap": _unwrap}
+            try:
+                r = ev.run(pre, env)
+                r = ev.run(post, env)
+                if r[0] == "raise":
+                    raise Raised(str(r[1]), str(r[1]))
+            except Unsupported as e:
+                ctx.undecided("R-C23.1", key, mb.where, f"decorated-function scenario: {e}")
+                return True
+            except Raised as e:
+                bad.append({"scenario": "functools.wraps wrapper from another module", "exit": exit_kind, "problem": f"raises {e}"})
+                continue
+            for label, g, want in (("wrapper module", gw, want_w), ("wrapped function's module", gi, want_i)):
+                if g != want:
+                    bad.append({"scenario": "functools.wraps wrapper from another module", "namespace": label, "exit": exit_kind,
+                                "user_bindings": {"wrapper": sorted(wb), "wrapped": sorted(ib)},
+                                "left_behind": sorted(k for k in g if k not in want), "lost": sorted(k for k in want if k not in g),
+                                "changed": sorted(k for k in want if k in g and g[k] != want[k])})
     shared_names = sorted(_module_state(ctx, mb))
     seqs = [({}, {"len": "user_len"}), ({"len": "user_len"}, {}), ({"int": "user_int"}, {"int": "user_int2", "len": "user_len"})]
     for first, second in seqs:
@@ -107,7 +145,7 @@ def run(ctx: Ctx, mb) -> bool:
             want = dict(g)
             ev = PyEval(ctx.idx, mb.module.name)
             ev.__dict__["_modconst"] = shared
-            env = {fparam: f, **shared, "id": lambda node, e, en: id(e.ev(node.args[0], en))}
+            env = {fparam: f, **shared, "id": lambda node, e, en: id(e.ev(node.args[0], en)), "inspect.unwrap": _unwrap, "unwrap": _unwrap}
             try:
                 r = ev.run(pre, env)
                 r = ev.run(post_normal, env)
